@@ -13,6 +13,7 @@ func Waitable[T any](wg *sync.WaitGroup, c <-chan T) <-chan T {
 
 	wg.Add(1)
 
+	VerifStage("Waitable", 0, []any{c}, []any{result})
 	go func() {
 		defer close(result)
 		defer wg.Done()
